@@ -335,7 +335,7 @@ func init() {
 		Assume:      []string{"token boundaries are taken from the lexer (checked by C16); the bracket/operator tracker is the harness's own"},
 		QuickCap:    100 * time.Second,
 		ThoroughCap: 20 * time.Minute,
-		HangLimit:   60 * time.Second,
+		HangLimit:   240 * time.Second,
 		Run:         runC15,
 		Replay: func(c *core.Ctx, cs core.Case) *core.Viol {
 			if cs.Kind == "script" {
